@@ -124,8 +124,24 @@ def install(s):
         k = conc(e, st, a[0], 'task id')
         if st.tasks is None: st.tasks = {}
         st.tasks[k] = (set(), set()); st.tasks['cur'] = k
+        st.tasks['mark'] = e.mod.first_dyn_oid + st.next_obj     # objects allocated from now on are local to the task
     def task_end(e, st, a, ins):
-        st.tasks['cur'] = None
+        k = st.tasks['cur']; st.tasks['cur'] = None
+        # the two asynchronous solves of one lower-bound step are tasks 2m and 2m+1: their footprints must not interfere
+        if k % 2 == 1 and (k - 1) in st.tasks:
+            r1, w1 = st.tasks[k - 1]; r2, w2 = st.tasks[k]
+            def overlap(A, B):
+                for (o, off, nb) in A:
+                    for (o2, off2, nb2) in B:
+                        if o == o2 and off < off2 + nb2 and off2 < off + nb: return (o, off)
+                return None
+            ov = overlap(w1, w2) or overlap(w1, r2) or overlap(w2, r1)
+            e.stats['task_pairs_checked'] = e.stats.get('task_pairs_checked', 0) + 1
+            if ov is not None:
+                o = e.getobj(st, ov[0])
+                e.check_vc(st, True, 'race', 'the two asynchronous solves of a step access %s+%d and at least one of them writes it' % (o.name, ov[1]))
+            else: e.vc_count('race', 'proved')
+            del st.tasks[k - 1]; del st.tasks[k]
     B['@__verif_task_begin'] = task_begin; B['@__verif_task_end'] = task_end
 
     # ------------------------------------------------------------ traps reached by straight calls
@@ -271,6 +287,7 @@ def install(s):
         for k, v, nb in tmp:
             dst.cells[do + k] = (v, nb)
             e.note_write(st, d.obj, do + k, nb)
+        if st.tasks is not None: e.note_read(st, sr.obj, so, ln)
     B['@llvm.eh.typeid.for'] = typeid_for
     P.append(('@llvm.lifetime', lambda e, st, a, ins: None))
     P.append(('@llvm.dbg', lambda e, st, a, ins: None))
